@@ -295,6 +295,11 @@ func Scenarios(tier string) []*Scenario {
 	wm := threadSpec{u: wide, tree: 0, steps: []step{{kind: "min"}, {kind: "search", k: wide.Free[0]}, {kind: "max"}}}
 	wn := threadSpec{u: wide, tree: 0, steps: []step{{kind: "min"}, {kind: "max"}, {kind: "search", k: wide.Free[1]}}}
 	out = append(out, build("readers-2/uint8-wide", "two goroutines asking one quiescent 256-way tree for its extremes", 1, []threadSpec{wm, wn}))
+	// complete traversals of the 256-way tree by both goroutines (the traversal stack takes all children of the wide node at once)
+	wfull := hist.WideFull()
+	wi := threadSpec{u: wfull, tree: 0, steps: []step{{kind: "all"}, {kind: "topk", n: 2}}}
+	wj := threadSpec{u: wfull, tree: 0, steps: []step{{kind: "backward"}, {kind: "all-stop", n: 3}}}
+	out = append(out, build("readers-2/uint8-wide-iterate", "two goroutines iterating one quiescent 256-way tree forwards and backwards", 1, []threadSpec{wi, wj}))
 	u64 := hist.SharedU64()
 	n1 := threadSpec{u: u64, tree: 0, steps: []step{{kind: "search", k: u64.Free[0]}, {kind: "range", k: u64.Free[0], b: u64.Free[1]}, {kind: "min"}}}
 	n2 := threadSpec{u: u64, tree: 0, steps: []step{{kind: "max"}, {kind: "search", k: u64.DelExtra[0]}, {kind: "topk", n: 1}, {kind: "search", k: u64.Free[1]}}}
